@@ -78,6 +78,7 @@ def nextAux : List Bytes → Paragraph → Bytes → Step
       | [k, v] =>
         let key := Str.trimSpace k
         let value := Str.trimSpace v
+        if Str.hasPrefix key [35] then .bad else     -- written back it would be a comment
         let order := if (lookup key p.values).isSome then p.order else p.order ++ [key]
         nextAux rest ⟨order, insert key value p.values⟩ key
       | _ => .bad
@@ -106,8 +107,8 @@ def foldValue (v : Bytes) : Bytes :=
   match Str.split [10] (Str.trimSuffix v [10]) with
   | [] => []
   | first :: rest =>
-    -- a first line starting with a blank can only be kept on a continuation line
-    let ls := if Str.hasPrefix first [32] ∨ Str.hasPrefix first [9] then [] :: first :: rest else first :: rest
+    -- a first line starting with white space can only be kept on a continuation line
+    let ls := if Str.trimLeftSpace first ≠ first then [] :: first :: rest else first :: rest
     match ls with
     | [] => []
     | f :: r => Str.joinWith [10] (f :: r.map (fun l => 32 :: (if l.isEmpty then [46] else l)))
